@@ -22,6 +22,9 @@ ASSUMPTIONS = ['pre-emption granularity: statement boundaries (plus the operands
 
 
 def obligations(tier):
+    from . import c12 as _c12
+    authfail = [o for o in _c12.obligations(tier) if o.id == 'E.authfail']      # 'never a hang', plain and coroutine backends
+
     return [
         Ob('T1', 'E', 'two loader threads completing one file: metadata restored exactly once under every interleaving', 'all 2^10 schedule prefixes (then fair drain)',
            [F['dc']], module=H, func='t1_race', timeout=900),
@@ -37,4 +40,4 @@ def obligations(tier):
         Ob('T5', 'E', 'snapshot under producer/worker interleavings and completion orders equals the sequential run; after a failed upload, an upload ending in CancelledError, or cancellation of the command by its caller: no hang, producer finished, slots back, no snapshot',
            '3 concurrency x 12 producer patterns x 6 file sets x 5 latency patterns x 4 outcomes (ok / backend error / CancelledError / caller cancels) = 4320', [F['sn'], F['wk'], F['cp']], module=H,
            func='t5_snapshot', timeout=1200, shards=8),
-    ]
+    ] + authfail
